@@ -678,14 +678,15 @@ theorem userAction_toks {shape id : Nat} {X : List Attr} {a : Attr}
   unfold userAction at h
   repeat' split at h
   all_goals cases h
-  · exact List.Sublist.refl _
-  · exact List.Sublist.refl _
-  · exact List.Sublist.refl _
-  · simp [attrToks, attrToksL]
-  · rename_i x hx
-    have := attrToks_sublist_of_mem (List.mem_of_getLast? hx)
-    simpa [attrToks, attrToksL] using this
-  · simp [attrToks, attrToksL]
+  all_goals first
+    | exact List.Sublist.refl _
+    | (rename_i x hx
+       have := attrToks_sublist_of_mem (List.mem_of_getLast? hx)
+       simpa [attrToks, attrToksL] using this)
+    | (rename_i x hx
+       have := attrToks_sublist_of_mem (List.mem_of_getElem? hx)
+       simpa [attrToks, attrToksL] using this)
+    | simp [attrToks, attrToksL]
 
 theorem reduceRes_toks {cfg : PCfg} {p : Nat} {X : List Attr} {ps ps2 : PState} {a : Attr}
     (h : reduceRes cfg p X ps = .ok (a, ps2)) :
